@@ -56,6 +56,47 @@ def default_policy(db, caller, term, callee):
     return True
 
 
+def _async_target(db, body, t, policy):
+    """(async fn body, its coroutine body, operands captured by the coroutine) for a `Future::poll` call whose future was created by
+    calling an `async fn` of the workspace in the same body; None otherwise"""
+    from . import flow
+    if not t["args"]:
+        return None
+    ch = flow.resolve_chain(body, t["args"][0])
+    if not ch:
+        return None
+    l, pr = ch[-1]
+    if pr:
+        return None
+    df = flow.single_def(body, l)
+    if df is None or df["kind"] != "call":
+        return None
+    ht = df["term"]
+    hcal = ht["callee"]
+    h = db.bodies.get(hcal.get("resolved") or "") or db.bodies.get(hcal.get("def") or "")
+    if h is None or hcal.get("virtual") or h.crate not in WORKSPACE or h.kind not in ("Fn", "AssocFn") or h.raw.get("impl_trait"):
+        return None
+    if short(h.name) in anchor_names() or len(h.blocks) > 6 or h.raw["argc"] != len(ht["args"]):
+        return None
+    agg = None
+    for bl in h.blocks:
+        for st in bl["stmts"]:
+            if st["rv"]["k"] == "agg" and st["rv"].get("agg") == "coroutine" and not st["dst"]["proj"] and st["dst"]["l"] == 0:
+                agg = st["rv"]
+    if agg is None:
+        return None
+    c = db.bodies.get(agg.get("def") or "")
+    if c is None or len(c.blocks) > 3 * MAX_BLOCKS:
+        return None
+    env_ops = []
+    for o in agg["ops"]:
+        p = o.get("p") if isinstance(o, dict) else None
+        if p is None or p["proj"] or not (1 <= p["l"] <= h.raw["argc"]):
+            return None
+        env_ops.append(ht["args"][p["l"] - 1])
+    return h, c, env_ops
+
+
 def _remap(obj, lmap, bmap=None):
     """deep copy with locals renumbered (every {"l":..,"proj":..} place and {"idx": local} projection)"""
     if isinstance(obj, dict):
@@ -85,6 +126,7 @@ def inline_raw(db, body, policy=default_policy, max_depth=MAX_DEPTH):
     debug = raw["debug"]
     inlined = []
     extra_children = []
+    n_orig = len(blocks)
     # worklist of (block index, depth, call stack)
     work = [(bi, 0, (body.name,)) for bi in range(len(blocks))]
     while work:
@@ -94,13 +136,22 @@ def inline_raw(db, body, policy=default_policy, max_depth=MAX_DEPTH):
         if bl["cleanup"] or t["k"] != "call" or depth >= max_depth or len(blocks) > MAX_TOTAL_BLOCKS:
             continue
         cal = t["callee"]
-        callee = db.bodies.get(cal.get("resolved") or "") or db.bodies.get(cal.get("def") or "")
-        if callee is None or callee.name in stack or cal.get("virtual"):
-            continue
-        if not policy(db, body, t, callee):
-            continue
+        is_async = False
+        if (cal.get("def") or "").endswith("future::future::Future::poll") and bi < n_orig:
+            # `helper(args).await`: the poll of a future created by an `async fn` of the workspace is replaced by the coroutine body
+            tgt = _async_target(db, body, t, policy)
+            if tgt is None or tgt[1].name in stack:
+                continue
+            hfn, callee, env_ops = tgt
+            is_async = True
+        else:
+            callee = db.bodies.get(cal.get("resolved") or "") or db.bodies.get(cal.get("def") or "")
+            if callee is None or callee.name in stack or cal.get("virtual"):
+                continue
+            if not policy(db, body, t, callee):
+                continue
         craw = callee.raw
-        if craw["argc"] != len(t["args"]):
+        if not is_async and craw["argc"] != len(t["args"]):
             continue
         L = len(locals_)
         B0 = len(blocks)
@@ -109,9 +160,16 @@ def inline_raw(db, body, policy=default_policy, max_depth=MAX_DEPTH):
         for n, p in craw["debug"]:
             debug.append([n, _remap(p, lmap)])
         line = (t.get("span") or {}).get("line", 0)
-        # parameters := arguments
-        for j, a in enumerate(t["args"]):
-            bl["stmts"].append({"dst": {"l": L + 1 + j, "proj": []}, "rv": {"k": "use", "ops": [a]}, "line": line, "inl": "arg"})
+        if is_async:
+            # environment := the arguments of the `async fn` call; resume argument := the context
+            bl["stmts"].append({"dst": {"l": L + 1, "proj": []}, "rv": {"k": "agg", "agg": "coroutine", "def": callee.name, "ops": copy.deepcopy(env_ops)},
+                                "line": line, "inl": "env"})
+            if len(t["args"]) > 1 and craw["argc"] >= 2:
+                bl["stmts"].append({"dst": {"l": L + 2, "proj": []}, "rv": {"k": "use", "ops": [t["args"][1]]}, "line": line, "inl": "arg"})
+        else:
+            # parameters := arguments
+            for j, a in enumerate(t["args"]):
+                bl["stmts"].append({"dst": {"l": L + 1 + j, "proj": []}, "rv": {"k": "use", "ops": [a]}, "line": line, "inl": "arg"})
         dst, succ, span = t["dst"], t["t"], t.get("span")
         bl["term"] = {"k": "goto", "t": B0, "inl_call": {"callee": callee.name, "span": span}}
         cfile = craw["span"]["file"]
@@ -122,11 +180,15 @@ def inline_raw(db, body, policy=default_policy, max_depth=MAX_DEPTH):
             _remap_term_blocks(nb["term"], B0)
             blocks.append(nb)
         B1 = len(blocks)
-        ret_assign = {"dst": copy.deepcopy(dst), "rv": {"k": "use", "ops": [{"p": {"l": L, "proj": []}, "mv": True}]}, "line": line, "inl": "ret"}
+        if is_async:
+            ret_assign = {"dst": copy.deepcopy(dst), "rv": {"k": "agg", "agg": "adt", "adt": "core::task::poll::Poll", "variant": "Ready", "fields": ["0"],
+                                                           "ops": [{"p": {"l": L, "proj": []}, "mv": True}]}, "line": line, "inl": "ret"}
+        else:
+            ret_assign = {"dst": copy.deepcopy(dst), "rv": {"k": "use", "ops": [{"p": {"l": L, "proj": []}, "mv": True}]}, "line": line, "inl": "ret"}
         # return-variant splitting: a return whose value is a known variant continues in a copy of the caller's continuation in which the
         # test of that variant is already decided (otherwise `helper(..)?` would merge the Ok and Err paths before the `?`)
         if succ is not None and succ >= 0:
-            _split_returns(blocks, B0, B1, L, craw.get("ret", ""), ret_assign, succ, dst)
+            _split_returns(blocks, B0, B1, L, craw.get("ret", ""), ret_assign, succ, dst, poll=is_async)
         for nbi in range(B0, B1):
             nb = blocks[nbi]
             if nb["term"]["k"] == "return" and not nb["cleanup"]:
@@ -188,7 +250,7 @@ def _defines(bl, L):
     return out
 
 
-def _split_returns(blocks, B0, B1, L, ret_ty, ret_assign, succ, dst):
+def _split_returns(blocks, B0, B1, L, ret_ty, ret_assign, succ, dst, poll=False):
     if dst["proj"]:
         return
     resid = "Err" if ret_ty.startswith("core::result::Result") else ("None" if ret_ty.startswith("core::option::Option") else None)
@@ -225,7 +287,7 @@ def _split_returns(blocks, B0, B1, L, ret_ty, ret_assign, succ, dst):
         if not ok:
             continue
         if kind not in conts:
-            conts[kind] = _specialise(blocks, succ, dst["l"], kind)
+            conts[kind] = _specialise(blocks, succ, dst["l"], kind, poll)
         entry = conts[kind]
         if entry is None:
             continue
@@ -242,28 +304,37 @@ def _split_returns(blocks, B0, B1, L, ret_ty, ret_assign, succ, dst):
         bl["term"]["t"] = first
 
 
-def _specialise(blocks, succ, D, kind):
+def _specialise(blocks, succ, D, kind, poll=False):
     """copy of the caller's continuation after the call, up to and including the switch that tests the variant of the call's result, with that
-    switch replaced by a jump to the arm selected by `kind`; None when the continuation has another shape"""
+    switch replaced by a jump to the arm selected by `kind`; None when the continuation has another shape.
+    poll: the result is `Poll::Ready(value)` (inlined `async fn`): the Ready/Pending test is decided first, then the value is followed"""
     tracked = {D}
     discr_of = {}
     cur = succ
-    clones = []
-    target = None
+    clones = []          # (block, forced target or None)
+    final = None
     k = kind
-    for _ in range(5):
+    for _ in range(10):
         bl = blocks[cur]
         if bl["cleanup"]:
             return None
         for st in bl["stmts"]:
             rv = st["rv"]
             if st["dst"]["proj"]:
+                if st["dst"]["l"] in tracked:
+                    return None
                 continue
             o = rv["ops"][0] if rv.get("ops") else None
             pl = o.get("p") if isinstance(o, dict) else None
-            if rv["k"] == "use" and pl and pl["l"] in tracked and not pl["proj"]:
+            pj = [e for e in pl["proj"] if e != "*"] if pl else None
+            if rv["k"] == "use" and pl and pl["l"] in tracked and not pj:
                 tracked.add(st["dst"]["l"])
-            elif rv["k"] == "discr" and pl and pl["l"] in tracked and not [e for e in pl["proj"] if e != "*"]:
+            elif rv["k"] == "use" and pl and pl["l"] in tracked and poll and len(pj) == 2 and isinstance(pj[0], dict) and pj[0].get("n") == "Ready" \
+                    and isinstance(pj[1], dict) and pj[1].get("f") == 0:
+                tracked = {st["dst"]["l"]}
+                discr_of = {}
+                poll = False
+            elif rv["k"] == "discr" and pl and pl["l"] in tracked and not pj:
                 discr_of[st["dst"]["l"]] = rv["variants"]
             elif st["dst"]["l"] in tracked or st["dst"]["l"] in discr_of:
                 return None
@@ -271,7 +342,7 @@ def _specialise(blocks, succ, D, kind):
         if t["k"] == "call":
             d = t["callee"].get("def") or ""
             a0 = t["args"][0].get("p") if t["args"] and isinstance(t["args"][0], dict) else None
-            if d.endswith("ops::try_trait::Try::branch") and a0 and a0["l"] in tracked and not a0["proj"] and k in POSITIVE and not t["dst"]["proj"]:
+            if d.endswith("ops::try_trait::Try::branch") and a0 and a0["l"] in tracked and not a0["proj"] and k in POSITIVE and not t["dst"]["proj"] and not poll:
                 k = POSITIVE[k]
                 tracked = {t["dst"]["l"]}
                 discr_of = {}
@@ -279,7 +350,7 @@ def _specialise(blocks, succ, D, kind):
                 cur = t["t"]
                 continue
             return None
-        if t["k"] == "goto":
+        if t["k"] in ("goto", "drop"):
             clones.append((cur, None))
             cur = t["t"]
             continue
@@ -287,38 +358,45 @@ def _specialise(blocks, succ, D, kind):
             dp = t["discr"].get("p") if isinstance(t["discr"], dict) else None
             if dp is None or dp["proj"]:
                 return None
+            target = None
             if dp["l"] in discr_of:
+                want = "Ready" if poll else k
                 val = None
                 for v, n in discr_of[dp["l"]]:
-                    if n == k:
+                    if n == want:
                         val = v
                 if val is None:
                     return None
-                target = None
                 for v, tb in t["targets"]:
                     if str(v) == str(val):
                         target = tb
                 if target is None:
                     target = t["otherwise"]
-            elif dp["l"] in tracked and k in ("true", "false"):
+            elif dp["l"] in tracked and k in ("true", "false") and not poll:
                 zero = [tb for v, tb in t["targets"] if str(v) == "0"]
                 if k == "false":
                     target = zero[0] if zero else None
                 else:
                     target = t["otherwise"] if zero and len(t["targets"]) == 1 else None
-                if target is None:
-                    return None
-            else:
+            if target is None:
                 return None
+            if poll:
+                # Ready/Pending decided: keep following the value
+                clones.append((cur, "next"))
+                cur = target
+                continue
             clones.append((cur, target))
+            final = target
             break
         return None
-    if target is None:
+    if final is None:
         return None
     first = len(blocks)
     for i, (cb, tgt) in enumerate(clones):
         nb = copy.deepcopy(blocks[cb])
-        if tgt is not None:
+        if tgt == "next":
+            nb["term"] = {"k": "goto", "t": first + i + 1, "threaded": "Ready"}
+        elif tgt is not None:
             nb["term"] = {"k": "goto", "t": tgt, "threaded": kind}
         else:
             nb["term"]["t"] = first + i + 1
